@@ -12,7 +12,7 @@ EXPLANATION = ("static analysis (MIR abstract interpretation) with compute_swap 
                "same-named source through SwapComputation / SimulationResponse / SwapResult; routed swaps feed each hop with the previous "
                "hop's return and pay only the last one out")
 ASSUMPTIONS = ["numeric equality of bank deltas follows from the wiring plus bank semantics", "Fee::compute (mantra_dex_std) is checked for rounding class only"]
-TECHNIQUE = "static analysis: same-value provenance at both ends of each transfer (cut-point origins), field-agreement tables, rounding classes"
+TECHNIQUE = "static analysis: same-value provenance at both ends of each transfer (cut-point origins), field-agreement tables, rounding classes, loop lints on MIR CFG/def-use (accumulators, x=f(x) chains, early exits), lossy-container rule"
 LEVEL_TEXT = "Structural obligations, exhaustive over CFG paths of Swap, ExecuteSwapOperations, perform_swap and the fee helpers."
 LEVEL_NOTE = "Not decided: bank deltas as numbers; accumulate-vs-overwrite semantics of containers."
 FLOORS = {"PROV-reserve-update": 4, "PROV-swap-outflow": 6, "AGREE-fees": 6}
